@@ -769,6 +769,9 @@ func c10Run(c *mc.Ctx, cs c10Case) {
 	case "large":
 		c10LargeProbe(c, cs)
 		return
+	case "seed-procs":
+		c10SeedProcs(c, cs)
+		return
 	}
 	ex := &mc.Explorer{
 		Ctx:  c,
@@ -895,6 +898,44 @@ func c10Seed(c *mc.Ctx, cs c10Case) {
 	}
 	c.Nontrivial(fmt.Sprintf("seed|%v", cs))
 	c.Outcome(cs.Op + ":seed-replay-ok")
+}
+
+// c10SeedProcs: "re-running with the same seed reproduces the result exactly" on an alignment large enough for
+// code that shares the work between goroutines (64 x 1100 cells): the seeded run with GOMAXPROCS 1 against the
+// seeded runs with 2, 3, 4 and 8 (a machine with another number of processors is another run of the same
+// command), each twice.
+func c10SeedProcs(c *mc.Ctx, cs c10Case) {
+	c.Eval()
+	run := cs
+	run.Seqs = c10LargeRows(cs.Shape[0], cs.Shape[1])
+	one := func(procs int) (res c10Res, pn bool, msg string) {
+		pn, msg, _ = mc.GuardExit(func() {
+			defer runtime.GOMAXPROCS(runtime.GOMAXPROCS(procs))
+			rand.Seed(cs.Seed)
+			res = c10Apply(run)
+		})
+		return
+	}
+	ref, pn, msg := one(1)
+	if pn {
+		c.Violation("C10/"+cs.Op+"/panic", msg+"; case "+jsonStr(cs), cs)
+		return
+	}
+	for _, procs := range []int{1, 2, 3, 4, 8} {
+		for rep := 0; rep < 2; rep++ {
+			got, pn, msg := one(procs)
+			if pn {
+				c.Violation("C10/"+cs.Op+"/panic", msg+"; case "+jsonStr(cs), cs)
+				return
+			}
+			if got.key() != ref.key() {
+				c.Violation("C10/"+cs.Op+"/seed-replay-differs-with-processors", fmt.Sprintf("seed %d on a %dx%d alignment: the run with GOMAXPROCS %d differs from the run with GOMAXPROCS 1; case %s", cs.Seed, cs.Shape[0], cs.Shape[1], procs, jsonStr(cs)), cs)
+				return
+			}
+		}
+	}
+	c.Nontrivial(fmt.Sprintf("seedprocs|%v", cs))
+	c.Outcome(cs.Op + ":seed-replay-ok-with-processors")
 }
 
 // c10LargeRows: n x L rows over ACGT whose columns are pairwise distinct (rows 0..5 spell the column
@@ -1183,6 +1224,16 @@ func c10Cases(tier string) []c10Case {
 			{Op: "bootstrap", F1: 1}, {Op: "sample", N: 60}, {Op: "samplebag", N: 60}, {Op: "shuffleseqs"},
 		} {
 			c.Alpha, c.Mode, c.Shape, c.Procs = nt, "large", []int{64, 1100}, procs
+			cs = append(cs, c)
+		}
+	}
+	// the same seed with another number of processors, on the large alignment
+	for _, seed := range []int64{1, -5} {
+		for _, c := range []c10Case{
+			{Op: "mutate", F1: 0.1}, {Op: "addgaps", F1: 0.3, F2: 0.2}, {Op: "shufflesites", F1: 0.5, F2: 0.5}, {Op: "swap", F1: 0.5, F2: 0.5}, {Op: "rogue", F1: 0.3, F2: 0.5},
+			{Op: "recombine", F1: 0.3, F2: 0.5}, {Op: "shuffleseqs"}, {Op: "bootstrap", F1: 1}, {Op: "sample", N: 60}, {Op: "randsub", N: 1024},
+		} {
+			c.Alpha, c.Mode, c.Shape, c.Seed = nt, "seed-procs", []int{64, 1100}, seed
 			cs = append(cs, c)
 		}
 	}
